@@ -135,6 +135,13 @@ func (p Part) source() string {
 		return "[nomarkup]" + p.Lit + "[/]"
 	case "sc":
 		return p.Lit + "[pause length=500/]"
+	// replacement markers in open form: marker and contents are replaced by the selected text
+	case "selopen":
+		return `[select value=k j="no" k="` + p.Lit + `"]dropped [b] contents[/select]`
+	case "pluopen":
+		return `[plural value=2 one="no" other="` + p.Lit + `"]dropped[/plural]`
+	case "ordopen":
+		return `[ordinal value=4 one="a" two="b" few="c" other="` + p.Lit + `"]dropped contents[/]`
 	}
 	return p.Lit
 }
@@ -270,6 +277,26 @@ type Case struct {
 	// LineCond: the program has plain lines with a line condition (the trace specification then
 	// accepts both readings of such a line: condition ignored, or a false condition skips the line)
 	LineCond bool `json:"linecond"`
+	// Rebinds: the registrations the host may make between two calls of this program (names the
+	// script uses); MC_Runner explores every point at which one of them may happen
+	Rebinds []Rebind `json:"rebinds"`
+}
+
+// Rebind is one AddFunction ("f") / AddCommand ("c") of a handler of behaviour class Kind.
+type Rebind struct {
+	What string `json:"what"`
+	Name string `json:"name"`
+	Kind string `json:"kind"`
+}
+
+// MarshalJSON: no JSON null may reach TLC's Json module.
+func (c Case) MarshalJSON() ([]byte, error) {
+	type plain Case
+	p := plain(c)
+	if p.Rebinds == nil {
+		p.Rebinds = []Rebind{}
+	}
+	return json.Marshal(p)
 }
 
 func (c *Case) body(id int) []Stmt {
